@@ -28,8 +28,8 @@ def classify_crash(out, err, repo):
     else:
         m = re.search(r"runtime error: (.*)", err)
         if m:
-            msg = re.sub(r"-?\d+", "N", m.group(1))
-            msg = re.sub(r"0x[0-9a-f]+", "P", msg)
+            msg = re.sub(r"0x[0-9a-fA-F]+", "P", m.group(1))   # addresses first: they vary from process to process
+            msg = re.sub(r"-?\d+", "N", msg)
             msg = re.sub(r"'[^']*'", "T", msg)
             cls = "ubsan:" + re.sub(r"[^A-Za-z]+", "-", msg).strip("-")[:60]
         else:
